@@ -77,9 +77,11 @@ def base_tr():
 COL = {'ROUND': 'C', 'ROUNDUP': 'D', 'ROUNDDOWN': 'E', 'PCT': 'F', 'ROUNDUP1': 'G', 'ROUNDDOWN1': 'H'}
 
 
-def eval_override(xtext, n, fns):
+def eval_override(xtext, n, fns, ex=None):
+    """ex: a long-lived executor (the grid lane keeps one per operand value, so one instance of the class sees the digit counts
+    -3 .. 6 one after the other); None: a fresh one"""
     tr = base_tr()
-    ex = tr.executor()
+    ex = ex or tr.executor()
     ex.set_cells([wbk.Cell('S', 'A', '1', to_number(xtext)), wbk.Cell('S', 'B', '1', n)])
     return {fn: tr.get('S', COL[fn], '1', ex) for fn in fns}
 
@@ -187,12 +189,13 @@ def run_shard(spec, rec):
             if rec.out_of_time():
                 rec.exhaustive = False
                 break
+            ex_x = base_tr().executor()
             for sign in ('', '-'):
                 x = sign + xt
                 if sign and Decimal(xt) == 0:
                     continue
                 for n in DIGITS:
-                    outs = eval_override(x, n, FUNCS + (['PCT', 'ROUNDUP1', 'ROUNDDOWN1'] if n == 0 else []))
+                    outs = eval_override(x, n, FUNCS + (['PCT', 'ROUNDUP1', 'ROUNDDOWN1'] if n == 0 else []), ex_x)
                     for fn, o in outs.items():
                         evals += 1
                         if nontrivial(fn, x, n):
